@@ -5,6 +5,7 @@ import DracoProofs.EbLayer
 import DracoProofs.EbIntSqrt
 import DracoProofs.EbCTIso
 import DracoProofs.EbHyps
+import DracoProofs.EbChain
 /-
   C01 (staging) — facts about the Edgebreaker mesh decoder model (DracoModel/Eb*.lean).
   The model is tied to the real decoder by the correspondence of C01 (tools/props/ebcases.py);
@@ -48,14 +49,14 @@ example :
   rfl
 
 /-- `Previous(Next(c)) = c` -/
-theorem corner_prev_next (c : Nat) (h : c < inv) : Eb.prevC (Eb.nextC c) = c := prevC_nextC c h
+theorem corner_prev_next (c : Nat) (h : c < inv) : Eb.prevC (Eb.nextC c) = c := Eb.prevC_nextC c h
 /-- `Next(Previous(c)) = c` -/
-theorem corner_next_prev (c : Nat) (h : c < inv) : Eb.nextC (Eb.prevC c) = c := nextC_prevC c h
+theorem corner_next_prev (c : Nat) (h : c < inv) : Eb.nextC (Eb.prevC c) = c := Eb.nextC_prevC c h
 /-- `Next(Next(Next(c))) = c` -/
-theorem corner_next_three (c : Nat) (h : c < inv) : Eb.nextC (Eb.nextC (Eb.nextC c)) = c := nextC_three c h
+theorem corner_next_three (c : Nat) (h : c < inv) : Eb.nextC (Eb.nextC (Eb.nextC c)) = c := Eb.nextC_three c h
 /-- `Next` and `Previous` stay in the face `c / 3` -/
 theorem corner_same_face (c : Nat) (h : c ≠ inv) : Eb.nextC c / 3 = c / 3 ∧ Eb.prevC c / 3 = c / 3 :=
-  ⟨nextC_face c h, prevC_face c h⟩
+  ⟨Eb.nextC_face c h, Eb.prevC_face c h⟩
 
 example : Eb.prevC (Eb.nextC 5) = 5 ∧ Eb.nextC 5 = 3 ∧ Eb.nextC (Eb.nextC (Eb.nextC 4)) = 4 := by decide
 
@@ -109,13 +110,18 @@ example : intSqrt 1000000 = 1000 ∧ intSqrt 999999 = 999 ∧ intSqrt (2 ^ 64 - 
         `valueBlockHyps` (block invariance under the change of mesh data, the decoder's parent attribute, ranges,
         counts) reports nothing THEN the block is read back; the op evaluates the checker on every block
         (`hyp-ok`);
+      * `eb_traversal_equivariant`, `eb_prediction_equivariant`, `eb_value_block_conditional_iso`: the depth-first and
+        prediction-degree traversers visit corresponding corners on isomorphic views; the value block does not depend
+        on which of two isomorphic mesh data the encoder runs on; hence from the isomorphism of the VIEWS
+        (`tvIso` checked; for the base table it follows from CTIso: `tviso_of_ctiso`) the decoder on its own
+        sequence reads back the block the encoder wrote on its own sequence;
       * `eb_ctiso_sound`: the Boolean `ctIso` the op evaluates implies the Prop-level isomorphism `CTIso`.
       Missing for the full implication (evaluated per case — `rt-ok`, `iso-ok`, `hyp-ok` —, not proved):
       `seams_correspond` (the seam bits decoded along the decoder's face order mark the images of the encoder's
-      seam edges), `traversal_equivariant` (the depth-first / prediction-degree traversals of two CTIso tables
-      started from corresponding corners visit corresponding corners, so that the `MeshData` of both sides
-      correspond and the predictions, which are equivariant, agree), `assign_points_correspond` (the decoder's
-      point ids realise the encoder's corner → attribute value relation) and the step from there to
+      seam edges — it is the checked hypothesis `tvIso` for attribute tables), `assign_points_correspond` (the
+      decoder's point ids realise the encoder's corner → attribute value relation — the checked hypothesis
+      `decParent` is its instance for the parent attribute), the connectivity round trip itself (that the decoder
+      builds a table with `ctIso`), the attribute section as a whole and the step from the portable values to
       `Spec.checkCore`.
   (c) `eb_encoded_counts_partial`: under CTIso the decoder's face count is the number of faces the encoder
       processed; that this is `num_faces − NumDegeneratedFaces` (what the encoder reports) and the statement
@@ -479,6 +485,98 @@ example : ∃ s', decodeIntegerValuesEb 1 3 2 2 exTriangle #[1, 2, 0] (some exPa
       (some (#[0, 0, 8, 0, 1, 7], TransformData.none), s') ∧ s'.rest = [9] :=
   eb_value_block_conditional exCh ({ builtin := false } : SeqEnc.EncOpts) exBlock 3 2 exTriangle #[1, 2, 0]
     (some exParentD) exBlockHyps exTexBlock _ [9] rfl rfl
+
+open Draco.EbEnc in
+/-- (b) **traversal equivariance** (`traversal_equivariant`): on isomorphic views (`TVIso`: corner map `φ` with
+    `φ (3 i) = order[i]`, vertex map `ψ`) the decoder's depth-first traversal from every face and the encoder's
+    traversal along `order` — both successful — visit corresponding corners in the same order: the entry → corner
+    maps correspond under `φ`, every visited vertex has the same entry index on both sides, and the point id of an
+    entry is the point of its corner.  (`traversal_equivariant_mpd`: the same for the prediction-degree traverser.) -/
+theorem eb_traversal_equivariant {d e : TView} {φ ψ : Nat → Nat} {facesD facesE : Array Nat} (h : TVIso d e φ ψ)
+    (order v2dInit : Array Nat) (v2dSize : Nat) (hsize : order.size = d.numFaces)
+    (horder : ∀ i, i < d.numFaces → order[i]! = φ (3 * i)) (outD outE : SeqOut)
+    (hD : depthFirst d facesD v2dSize = .ok outD) (hE : depthFirstOrder e facesE order v2dInit = .ok outE) :
+    (outE.d2c.size = outD.d2c.size ∧
+      ∀ p (hp : p < outD.d2c.size), outD.d2c[p] < 3 * d.numFaces ∧ outE.d2c[p]! = φ outD.d2c[p]) ∧
+    (∀ p (hp : p < outD.d2c.size) v, d.vertex outD.d2c[p] = .ok v → outD.v2d[v]? = some p ∧ outE.v2d[ψ v]? = some p) :=
+  let r := traversal_equivariant h order v2dInit v2dSize hsize horder outD outE hD hE
+  ⟨r.1, r.2.1⟩
+
+open Draco.EbEnc in
+/-- (b) **the predictions are equivariant** (`encodeSchemeBlock_iso`): on isomorphic mesh data (`MDIso`) — the decoder's
+    view having an involutive `Opposite` — the encoder writes the same value block, for every scheme -/
+theorem eb_prediction_equivariant {d e : MeshData} {φ ψ : Nat → Nat} (h : MDIso d e φ ψ) (hinv : OppInvol d.t)
+    (ch : EbChoices) (o : SeqEnc.EncOpts) (attId kind nc : Nat) (s : PScheme) (pos : PosSource) (portable : Array Int) :
+    encodeSchemeBlock ch o attId kind nc s e pos portable = encodeSchemeBlock ch o attId kind nc s d pos portable :=
+  encodeSchemeBlock_iso h hinv ch o attId kind nc s pos portable
+
+open Draco.EbEnc in
+/-- (b) **conditional round trip of a value block from the isomorphism of the VIEWS** (the chain `TVIso`
+    —`traversal_mdIso`→ `MDIso` —`encodeSchemeBlock_iso`→ block invariance —`runs_valueBlock`→ decode): the encoder
+    generated its sequence `seqE` on its view `b.md.t` along `processed` and wrote the block `b`; the decoder
+    generated `seqD` on ITS view `viewD` from every face (same traverser).  IF the checker `valueBlockHypsIso`
+    reports nothing — `tvIso` (the views are isomorphic under the corner map of `processed`: for the base table this
+    is `CTIso` (`tviso_of_ctiso`), for an attribute table it additionally says that the decoded seams are the images of
+    the encoder's seams, `seams_correspond`), `hedge` / `oppInvol` (the decoder's view is a consistent corner
+    table), `decParent` (`assign_points_correspond` for the parent attribute), `schemeKind`, `sizes`, `int32`,
+    `normals`, `corners`, `creaseCount` — THEN the decoder, on its own sequence, reads the block back.
+    Neither block invariance nor the correspondence of the two sequences is a hypothesis any more.
+    Evaluated by the op on every block of every case (`hyp-ok`). -/
+theorem eb_value_block_conditional_iso (ch : EbChoices) (o : SeqEnc.EncOpts) (b : ValueBlock) (attComponents : Nat)
+    (viewD : TView) (seqD seqE : SeqOut) (parentD : Option Parent) (processed psi back cback : Array Nat)
+    (facesD facesE v2dInit : Array Nat) (v2dSize : Nat)
+    (hy : valueBlockHypsIso ch o b viewD seqD parentD (phiOf processed) psi back cback = [])
+    (hsize : processed.size = viewD.numFaces)
+    (htrav : TraversalRuns viewD b.md.t facesD facesE processed v2dInit v2dSize seqD seqE)
+    (hmd : b.md = ⟨b.md.t, seqE.d2c, seqE.v2d⟩) (hpid : b.pointIds = seqE.pointIds)
+    (henc : encodeIntegerValuesEb ch o b.attId b.kind b.nc b.numValues b.scheme b.md b.pointIds b.parent b.portable =
+      .ok (b.outScheme, b.bytes))
+    (s : DSt) (extra : Bytes) (hs : s.rest = b.bytes ++ extra) (hsv : s.version = 514) :
+    ∃ s', decodeIntegerValuesEb b.kind seqD.pointIds.size b.nc attComponents ⟨viewD, seqD.d2c, seqD.v2d⟩ seqD.pointIds
+        parentD s = (some (b.portable, TransformData.none), s') ∧ s'.rest = extra :=
+  let ⟨s', h1, h2, _⟩ := (value_block_checked_iso ch o b attComponents viewD seqD seqE parentD processed psi back cback
+    facesD facesE v2dInit v2dSize hy hsize htrav hmd hpid henc).run s extra hs hsv
+  ⟨s', h1, h2⟩
+
+open Draco.EbEnc in
+set_option maxRecDepth 100000 in
+set_option maxHeartbeats 4000000 in
+/-- the decoder's traversal of the triangle -/
+theorem exTravD : depthFirst exTriangle.t #[0, 1, 2] 3 = .ok ⟨#[1, 2, 0], #[1, 2, 0], #[2, 0, 1]⟩ := by
+  simp [depthFirst, onNewVertex, faceVisited, faceOfCorner, exTriangle, TView.vertex, TView.opposite, TView.rightCorner,
+    TView.leftCorner, TView.isOnBoundary, TView.swingLeft, TView.numVertices, rd, wr, rdB, wrB, inv, Eb.nextC, Eb.prevC,
+    Std.Legacy.Range.forIn_eq_forIn_range', Std.Legacy.Range.size, bind, Except.bind, pure, Except.pure, List.range'_succ]
+  decide
+
+open Draco.EbEnc in
+set_option maxRecDepth 100000 in
+set_option maxHeartbeats 4000000 in
+/-- the encoder's traversal along `processed = [0]` -/
+theorem exTravE : depthFirstOrder exTriangle.t #[0, 1, 2] #[0] #[inv, inv, inv] =
+    .ok ⟨#[1, 2, 0], #[1, 2, 0], #[2, 0, 1]⟩ := by
+  simp [depthFirstOrder, onNewVertex, faceVisited, faceOfCorner, exTriangle, TView.vertex, TView.opposite, TView.rightCorner,
+    TView.leftCorner, TView.isOnBoundary, TView.swingLeft, TView.numVertices, rd, wr, rdB, wrB, inv, Eb.nextC, Eb.prevC,
+    Std.Legacy.Range.forIn_eq_forIn_range', Std.Legacy.Range.size, bind, Except.bind, pure, Except.pure, List.range'_succ]
+
+open Draco.EbEnc in
+/-- the checker accepts the block of `exTexBlock` against the decoder's traversal -/
+theorem exBlockHypsIso : valueBlockHypsIso exCh ({ builtin := false } : SeqEnc.EncOpts) exBlock exTriangle.t
+    ⟨#[1, 2, 0], #[1, 2, 0], #[2, 0, 1]⟩ (some exParentD) (phiOf #[0]) #[0, 1, 2] #[0, 1, 2] #[0, 1, 2] = [] := by
+  have h1 : effectiveScheme .texCoords #[0, 0, 8, 0, 1, 7] = .texCoords := by rfl
+  have h2 : encParentSource .texCoords #[1, 2, 0] (some exParentE) = .ok exPositions := by rfl
+  unfold valueBlockHypsIso
+  simp only [exBlock, h1, h2]
+  rfl
+
+open Draco.EbEnc in
+/-- non-vacuity: the triangle, traversed by both sides, tex-coords block -/
+example : ∃ s', decodeIntegerValuesEb 1 3 2 2 exTriangle #[1, 2, 0] (some exParentD)
+      { rest := exBlock.bytes ++ [9], version := 514 } =
+      (some (#[0, 0, 8, 0, 1, 7], TransformData.none), s') ∧ s'.rest = [9] :=
+  eb_value_block_conditional_iso exCh ({ builtin := false } : SeqEnc.EncOpts) exBlock 2 exTriangle.t
+    ⟨#[1, 2, 0], #[1, 2, 0], #[2, 0, 1]⟩ ⟨#[1, 2, 0], #[1, 2, 0], #[2, 0, 1]⟩ (some exParentD) #[0] #[0, 1, 2] #[0, 1, 2]
+    #[0, 1, 2] #[0, 1, 2] #[0, 1, 2] #[inv, inv, inv] 3 exBlockHypsIso rfl (Or.inl ⟨exTravD, exTravE⟩) rfl rfl exTexBlock
+    _ [9] rfl rfl
 
 open Draco.EbEnc in
 /-- (b) **CTIso as a proposition**: the Boolean checker the op evaluates on every case (`iso-ok`) implies the
